@@ -2,14 +2,24 @@
 # gen/seeded_regress.sh : apply every seeded change in turn, run the check of its property, undo; print one line each.
 # Runs from whatever copy of /verif it lives in; with HT_REPO set it patches that snapshot instead of /repo
 # (vp run --with-repo -- bash -c 'export HT_REPO=$VP_RUN_REPO; ./setup.sh; ./gen/seeded_regress.sh').
+# SEEDS="a b ..." runs every change under each seed: a change counts as DETECTED only if every seed detects it
+# (a detection that depends on the seed is luck, reported as FLAKY with the seeds that missed).
 V=$(cd "$(dirname "$0")/.." && pwd)
 cd "$V"
+SEEDS=${SEEDS:-20260930}
 for d in seeded/*/; do
   id=$(basename $d); prop=${id%%-*}
-  res=$(./gen/try_seeded.sh $V/$d/patch.diff $prop 2>&1 | head -1)
-  case "$res" in
-    *VIOLATION*no-failing-input-found*) echo "$id: DETECTED (no-failing-input-found)";;
-    *VIOLATION*) echo "$id: DETECTED (concrete failing input)";;
-    *) echo "$id: MISSED   $res";;
-  esac
+  kinds=""; missed=""
+  for sd in $SEEDS; do
+    res=$(VERIF_SEED=$sd ./gen/try_seeded.sh $V/$d/patch.diff $prop 2>&1 | head -1)
+    case "$res" in
+      *VIOLATION*no-failing-input-found*) kinds="$kinds n";;
+      *VIOLATION*) kinds="$kinds c";;
+      *) missed="$missed $sd";;
+    esac
+  done
+  if [ -n "$missed" ] && [ -z "$kinds" ]; then echo "$id: MISSED   (seeds:$missed)"
+  elif [ -n "$missed" ]; then echo "$id: FLAKY    (missed with seeds:$missed)"
+  elif [[ "$kinds" == *n* ]]; then echo "$id: DETECTED (no-failing-input-found)"
+  else echo "$id: DETECTED (concrete failing input)"; fi
 done
